@@ -5,13 +5,13 @@ The finite certificates of C11, evaluated.  Two bounded environments of the same
 from the GENERATED Manager / Connector / DCP / TrafficTimer tables on every build:
 
 * `absK` — at most 2 links at a time, both orders of the side strings, every network with at least one
-  direction of dialling: 54 726 reachable states;
+  direction of dialling: 72 942 reachable states;
 * `absS` — at most 1 link at a time, every such network, plus silent loss of either direction, the leader's
   ping interval timer, Ping/Pong/Ack on the wire and one application record per side that is re-sent on every
-  new connection: 209 606 reachable states.
+  new connection: 253 466 reachable states.
 
-* `absR` — one side configured with the transit relay, direct dialling in one direction or in none, at most 2
-  links at a time: 440 822 reachable states.
+* `absR` — one side configured with the transit relay, direct dialling in no direction or only by the other side, at
+  most 2 links at a time, relay attempts may stay in flight: 311 129 reachable states.
 
 Far beyond `decide +kernel` (≈10³ states × 25 events in minutes, DESIGN §4), so these seven evaluations, and
 nothing else, use `native_decide` (≈ 100 s with the precompiled WVExec library).  It adds `Lean.ofReduceBool` /
@@ -45,7 +45,7 @@ theorem certS : certList absS RS = true := by native_decide
 
 theorem certConvergeS : convergeCert absS 200 RS = true := by native_decide
 
-/-- `absR` (one side configured with the transit relay; direct dialling in one direction or in none): the same two -/
+/-- `absR` (one side configured with the transit relay; direct dialling in no direction or only by the other side): the same two -/
 theorem certR : certList absR RR = true := by native_decide
 
 theorem certConvergeR : convergeCert absR 200 RR = true := by native_decide
